@@ -5,7 +5,7 @@
    suffix twice.  Definitions only. *)
 From Coq Require Import ZArith NArith List Bool Arith.
 From Coq Require Import Floats.SpecFloat.
-From Cfi Require Import Glue.Sx Py.PyStr Py.PyNum Py.PyBits Py.PyDate Model.Field Model.Line.
+From Cfi Require Import Glue.Sx Py.PyStr Py.PyNum Py.PyBits Py.PyDate Py.PyRe Model.Field Model.Line.
 Import ListNotations.
 
 (* ---------- generic reading loop: registers and blocks *)
@@ -123,10 +123,11 @@ Fixpoint write_elems (sto : storage) (rs : list regdef) (es : list elem) : optio
               end
   end.
 
-(* ---------- patterns: alternation of literals, each optionally anchored at the start (^) *)
-Definition pattern := list (bool * str).
-Definition pat_search (p : pattern) (s : str) : bool :=
-  existsb (fun a : bool * str => if fst a then starts_with (snd a) s else contains (snd a) s) p.
+(* ---------- patterns: regular expressions (Py/PyRe.v); "found in the line" is re.search(...) is not None.
+   The earlier literal-only language (alternations of optionally ^-anchored literals) is the instance
+   RAlt (RSeq RBol (re_lit l)) ... -- Proofs/ReProofs.v: re_search_lit, re_search_anchored_lit, re_search_alt *)
+Definition pattern := re.
+Definition pat_search (p : pattern) (s : str) : bool := re_search p s.
 
 (* ---------- blocks: the harness family of raw blocks -- from the first line up to and including the
    first line on which the end pattern is found, or the end of the input *)
@@ -165,7 +166,7 @@ Definition block_dispatch (uses_storage : bool) (sto : storage) (bs : list block
   | _, _ => find_idx (fun b => pat_search (b_begin b) p) bs 0
   end.
 
-Definition nth_block (bs : list blockdef) (i : nat) : blockdef := nth i bs {| b_begin := []; b_end := [] |}.
+Definition nth_block (bs : list blockdef) (i : nat) : blockdef := nth i bs {| b_begin := re_never; b_end := re_never |}.
 
 Definition read_blockfile (uses_storage : bool) (sto : storage) (bs : list blockdef) (fuel : nat) (s : str)
   : option (list (option nat * str)) :=
